@@ -390,6 +390,25 @@ func checkC09(c *core.Ctx) {
 		}
 	})
 
+	// inconsistent user dictionaries (dangling references, cycles, unnamed entries): whatever the
+	// command decides, it must decide it in the proper form
+	c.Stream("dictionaries", c.N(120, 1500), func(i int, r *rand.Rand) {
+		f, kind, used := brokenForest(i, r)
+		args := writeDictFiles(c, r, f)
+		sym := "m7"
+		if used && kind != "unnamed-chord" {
+			sym = "Zbroken"
+		}
+		doc := []byte("- chord: {degree: \"1\", name: \"" + sym + "\"}\n  values: [1]\n")
+		for _, cmd := range [][]string{{"write"}, {"write", "event"}, {"write", "conv", "-c", "cmt"}, {"info", "chord", "describe", "-t", "C_" + sym}, {"info", "chord", "list"}, {"info", "attr", "list"}, {"info", "attr", "describe", "-t", "Perfect5"}} {
+			res := c.Crd.Run(runner.Opt{Stdin: doc}, append(append([]string{}, cmd...), args...)...)
+			if !judgeOutcome(c, "dictionaries", i, strings.Join(cmd[:min(2, len(cmd))], " ")+" (inconsistent dictionary: "+kind+")", res, map[string]any{"kind": kind, "chord_yaml": short(string(chordsYAML(f.chords)), 1500)}) {
+				return
+			}
+		}
+		c.Nontrivial(fmt.Sprintf("dict|%s|%v|%d", kind, used, i))
+	})
+
 	// ---------------- (2) flag fuzz
 	flagFuzz(c)
 
@@ -519,10 +538,10 @@ func flagFuzz(c *core.Ctx) {
 // nonsense item through three kinds of channel
 type nonsense struct {
 	name  string
-	text  []string      // chord texts (through text conv degree/syllable, then write)
-	yaml  []string      // instance documents (through write, write event, write parse, write conv)
-	flags [][]string    // argv tails for `write` on a valid document
-	cmds  [][]string    // complete argv of other commands that must fail
+	text  []string   // chord texts (through text conv degree/syllable, then write)
+	yaml  []string   // instance documents (through write, write event, write parse, write conv)
+	flags [][]string // argv tails for `write` on a valid document
+	cmds  [][]string // complete argv of other commands that must fail
 }
 
 func nonsenseCatalogue(c *core.Ctx) {
